@@ -1909,3 +1909,106 @@ Lemma demo_xprop_facts :
   /\ (in_scope demo_xprop_verb = true /\ well_linked demo_xprop_verb = false
       /\ obs_of (validate demo_xprop_verb) = (2, [(5, 2); (4, 1)])).
 Proof. vm_compute. repeat split. Qed.
+
+(* ---------------------------------------------------------------- parameters declared together *)
+
+(* The type check of a bound parameter is made for THAT parameter under the kind of ITS annotation, wherever it
+   stands in the list and whatever was processed before it: its diagnostics are among those of validateParams. *)
+Lemma params_go_each attrs : forall l processed ds j p a pi,
+  params_go attrs processed l = Some ds -> In (j, p) l -> is_ctx p = false ->
+  first_by_value (fp_name p) attrs = Some a -> passed_of (la_kind a) = Some pi ->
+  incl (type_diag j p pi) ds.
+Proof.
+  induction l as [|[j0 p0] t IH]; intros processed ds j p a pi Hgo Hin Hctx Hf Hp; [destruct Hin|].
+  cbn [params_go] in Hgo. destruct Hin as [E|Hin].
+  - inversion E; subst j0 p0. rewrite Hctx, Hf, Hp in Hgo.
+    destruct (params_go attrs (processed ++ [pi]) t) as [rest|]; [|discriminate].
+    inversion Hgo; subst ds. unfold type_diag. apply incl_appl, incl_refl.
+  - destruct (is_ctx p0); [eapply IH; eauto|].
+    destruct (first_by_value (fp_name p0) attrs) as [a0|]; [|eapply IH; eauto].
+    destruct (passed_of (la_kind a0)) as [pi0|]; [|discriminate].
+    destruct (params_go attrs (processed ++ [pi0]) t) as [rest|] eqn:Erest; [|discriminate].
+    inversion Hgo; subst ds. apply incl_appr, incl_appr. eapply IH; eauto.
+Qed.
+
+Theorem each_parameter_type_diags_reported r l j p a pi :
+  validate r = VDiags l -> In (j, p) (indexed (r_params r)) -> is_ctx p = false ->
+  first_by_value (fp_name p) (r_attrs r) = Some a -> passed_of (la_kind a) = Some pi ->
+  incl (type_diag j p pi) l.
+Proof.
+  unfold validate. intros Hv Hin Hctx Hf Hp.
+  destruct (negb (is_endpoint r)); [discriminate|].
+  destruct (params_diags r) as [dp|] eqn:Edp; [|discriminate].
+  destruct (rets_diags r) as [dr|]; [|discriminate].
+  inversion Hv; subst l. apply incl_appr, incl_appl.
+  unfold params_diags in Edp. eapply params_go_each; eauto.
+Qed.
+
+Lemma type_diag_nil_any_index j j' p pi : type_diag j p pi = [] -> type_diag j' p pi = [].
+Proof.
+  unfold type_diag, validate_body_param, validate_nonbody_param.
+  destruct pi; repeat match goal with |- context [if ?c then _ else _] => destruct c end;
+    intros H; try reflexivity; discriminate.
+Qed.
+
+(* ... so an accepted route has no bound parameter whose type does not suit the kind of its own annotation *)
+Theorem accepted_every_parameter_suits_its_kind r j p a pi :
+  accepted r = true -> In p (r_params r) -> is_ctx p = false ->
+  first_by_value (fp_name p) (r_attrs r) = Some a -> passed_of (la_kind a) = Some pi ->
+  type_diag j p pi = [].
+Proof.
+  unfold accepted. intros Hacc Hin Hctx Hf Hp.
+  destruct (validate r) as [| |l] eqn:Ev; try discriminate.
+  apply andb_true_iff in Hacc. destruct Hacc as [Hne _].
+  destruct (In_index_from 0 (r_params r) p Hin) as [j0 Hj0].
+  apply (type_diag_nil_any_index j0).
+  apply all_errors_nil; [apply type_diag_errors|].
+  rewrite no_error_In in *. intros d Hd. apply Hne.
+  eapply each_parameter_type_diags_reported; eauto.
+Qed.
+
+(* A declaration `n1, n2, ... T`: the names share the type, nothing else.  The model has the flat list of
+   parameters, so its verdict cannot depend on how the parameters are grouped into declarations; what remains to
+   say is that the names of ONE declaration are judged one by one, each by the annotation that binds it. *)
+Definition decl : Type := (list str * tbase * tshape)%type.
+Definition decl_params (d : decl) : list fparam :=
+  let '(ns, b, sh) := d in map (fun n => {| fp_name := n; fp_base := b; fp_shape := sh |}) ns.
+Definition params_of_decls (ds : list decl) : list fparam := flat_map decl_params ds.
+
+Theorem declared_together_judged_separately r ds ns b sh n a pi j :
+  r_params r = params_of_decls ds -> accepted r = true ->
+  In (ns, b, sh) ds -> In n ns ->
+  let p := {| fp_name := n; fp_base := b; fp_shape := sh |} in
+  is_ctx p = false -> first_by_value n (r_attrs r) = Some a -> passed_of (la_kind a) = Some pi ->
+  type_diag j p pi = [].
+Proof.
+  intros Hps Hacc Hd Hn p Hctx Hf Hp.
+  apply (accepted_every_parameter_suits_its_kind r j p a pi); auto.
+  rewrite Hps. unfold params_of_decls. apply in_flat_map. exists (ns, b, sh). split; [assumption|].
+  cbn [decl_params]. apply in_map_iff. exists n. split; [reflexivity | assumption].
+Qed.
+
+(* `ListItems(tags, labels []string)` with @Query(tags) @Header(labels); `Search(payload, filter Item)` with
+   @Body(payload) @Query(filter); `Get(id, name, trace string)` with @Path(id) @Query(name) @Header(trace) *)
+Definition demo_grouped_slice_header : route :=
+  mkR "/c" [mkA KMethod "GET"; mkA KRoute "/items"; mkA KQuery "tags"; mkA KHeader "labels"]
+    (params_of_decls [([s "tags"; s "labels"], TPrim, SSlice)]) [RError].
+Definition demo_grouped_struct_query : route :=
+  mkR "/c" [mkA KMethod "POST"; mkA KRoute "/search"; mkA KBody "payload"; mkA KQuery "filter"]
+    (params_of_decls [([s "payload"; s "filter"], TStruct, SPlain)]) [RError].
+Definition demo_grouped_ok : route :=
+  mkR "/c" [mkA KMethod "GET"; mkA KRoute "/items/{id}"; mkA KPath "id"; mkA KQuery "name"; mkA KHeader "trace"]
+    (params_of_decls [([s "id"; s "name"; s "trace"], TPrim, SPlain)]) [RPlain; RError].
+
+Definition demo_trace : fparam := mkP "trace" TPrim SPlain.
+
+Lemma demo_grouped_facts :
+  (in_scope demo_grouped_slice_header = true /\ well_linked demo_grouped_slice_header = false
+   /\ validate demo_grouped_slice_header = VDiags [err CParamNotPrimitive (AnParam 1)]
+   /\ accepted demo_grouped_slice_header = false)
+  /\ (in_scope demo_grouped_struct_query = true /\ well_linked demo_grouped_struct_query = false
+      /\ validate demo_grouped_struct_query = VDiags [err CParamNotPrimitive (AnParam 1)]
+      /\ accepted demo_grouped_struct_query = false)
+  /\ (in_scope demo_grouped_ok = true /\ well_linked demo_grouped_ok = true /\ accepted demo_grouped_ok = true
+      /\ type_diag 2 demo_trace PHeader = []).
+Proof. vm_compute. repeat split. Qed.
